@@ -238,7 +238,7 @@ class Value(ABC):
                 pass
 
         mode = ExplicitAddressingMode.EXTENDED if default_mode_extended else ExplicitAddressingMode.NONE
-        if value[0] in [">", "<", "#"]:
+        if value and value[0] in [">", "<", "#"]:
             if value.startswith("<"):
                 mode = ExplicitAddressingMode.EXPLICIT_DIRECT
             if value.startswith(">"):
